@@ -584,13 +584,18 @@ def run(*, tier, seed, jobs, progress, opts):
         if tier == 'quick' and (tls, local) != (False, False):
             continue
         names = [e['name'] for e in m.alphabet()]
-        e1s = [names.index(n) for n in E1_QUICK] if tier == 'quick' \
-            else list(range(len(names)))
+        quick_e1 = [names.index(n) for n in E1_QUICK]
         hists = [h for h in sorted(res.state_histories,
                                    key=lambda h: (len(h), h))
                  if len(h) <= pdepth]
         import multiprocessing as mp
-        ptasks = [(m.params, h, e1) for h in hists for e1 in e1s]
+        # thorough: every first command in the states within pdepth-1
+        # commands, the 14 first commands with background work or state
+        # change in the states at pdepth
+        ptasks = [(m.params, h, e1) for h in hists
+                  for e1 in (quick_e1 if tier == 'quick' or len(h) == pdepth
+                             else range(len(names)))]
+        e1s = quick_e1 if tier == 'quick' else list(range(len(names)))
         pairs = 0
         with mp.get_context('fork').Pool(jobs or 16) as pool:
             for vs, n in pool.imap_unordered(_pair_task, ptasks,
